@@ -283,6 +283,14 @@ Theorem C04_decoder_translated_short : forall (text : list Z) (t : tag),
   C04_dec.decode_text Proofs.C04_dec.nopf Decoder.decoder_prog text = C04_dec.DOk (map Z.of_N (enc t)).
 Proof. exact C04_dec_sweep.decoder_agrees_short. Qed.
 
+(* compound entries with quoted and bare keys: the same on EVERY text of at most 7 symbols over braces, colon, both
+   quotes, 1 and a (alpha4) *)
+Theorem C04_decoder_translated_short_keys : forall (text : list Z) (t : tag),
+  (length text <= 7)%nat -> Forall (fun c => In c C04_dec_sweep3.alpha4) text ->
+  parse C04_dec_sweep.nopfs C04_dec_sweep.nopfs (map Z.to_N text) = Some t ->
+  Model.C04_dec.decode_text Proofs.C04_dec.nopf Decoder.decoder_prog text = Model.C04_dec.DOk (map Z.of_N (enc t)).
+Proof. exact C04_dec_sweep3.decoder_agrees_short_keys. Qed.
+
 (* float literals: the same on EVERY text of at most 5 symbols over 1 . - + f D d brackets comma and space (alpha3), under
    float oracles that are consistent with each other (spf reads (sign, integer digits, fraction digits), zpf the token
    without its suffix letter: the same decimal text) *)
@@ -348,6 +356,7 @@ Proof. repeat split; vm_compute; reflexivity. Qed.
 Print Assumptions C04_decoder_closed.
 Print Assumptions C04_decoder_scratch_local.
 Print Assumptions C04_decoder_translated_short.
+Print Assumptions C04_decoder_translated_short_keys.
 Print Assumptions C04_decoder_translated_short_floats.
 Print Assumptions C04_decoder_total_short.
 Print Assumptions C04_decoder_quoted_translated.
